@@ -540,7 +540,9 @@ class DataFrameSchemaBackend(PandasSchemaBackend):
                         f"column '{c}' to type {col_schema.dtype}: {exc}\n"
                         f"{exc.failure_cases}"
                     ),
-                    failure_cases=exc.failure_cases,
+                    # the fill value, not a row of the data, is at fault:
+                    # dropping rows cannot repair this error
+                    failure_cases=repr(col_schema.default),
                     check=f"coerce_dtype('{col_schema.dtype}')",
                 ) from exc
 
